@@ -104,14 +104,8 @@ def handleTap (tx : Tx) (spent : List TxOut) (idx : Nat) (ht : UInt32) (annex : 
     | .error _ => "err"
   else
     let sh := Model.newTxSigHashes sha tx fetch
-    let o : Model.TaprootSigHashOptions := {}
-    let o := match ext with
-      | some e => Model.withBaseTapscriptVersion e.codeSepPos e.leafHash o
-      | none => o
-    let o := match annex with
-      | some a => Model.withAnnex sha a o
-      | none => o
-    showOut (Model.calcTaprootSignatureHashRaw sha sh ht tx idx fetch o)
+    showOut (Model.calcTaprootSignatureHashRaw sha sh ht tx idx fetch
+      (Model.mkOpts sha annex (ext.map (fun e => (e.leafHash, e.codeSepPos)))))
 
 def annex? (s : String) : Option (Option Bytes) :=
   if s == "x" then some none else (hexToList? s).map some
@@ -141,7 +135,45 @@ def sigCacheRun (cap : Nat) (ops : List String) : Option String := do
     | _ => none
   pure (if out.isEmpty then "-" else String.intercalate "," out)
 
+def showMid (s : Model.SigHashes) : String :=
+  listToHex (s.hashPrevOutsV0 ++ s.hashSequenceV0 ++ s.hashOutputsV0 ++ s.hashPrevOutsV1 ++
+    s.hashSequenceV1 ++ s.hashOutputsV1 ++ s.hashInputScriptsV1 ++ s.hashInputAmountsV1)
+
+def parseTxs : Nat → List String → Option (List (Tx × List TxOut) × List String)
+  | 0, rest => some ([], rest)
+  | n+1, t :: s :: rest => do
+    let tx ← tx? t
+    let sp ← spent? s
+    if sp.length ≠ tx.ins.length then none
+    let (l, r) ← parseTxs n rest
+    pure ((tx, sp) :: l, r)
+  | _, _ => none
+
+def hashCacheRun (txs : List (Tx × List TxOut)) (ops : List String) : Option String := do
+  let mut c : Model.HashCache := []
+  let mut out : List String := []
+  for o in ops do
+    match o.splitOn ":" with
+    | [k, i] =>
+      let i ← i.toNat?
+      let (tx, sp) ← txs[i]?
+      let txid := sha (sha (txSerNoWitness tx))
+      if k == "a" then c := c.add txid (Model.newTxSigHashes sha tx (mkFetch tx sp))
+      else if k == "g" then out := out ++ [match c.get txid with | some s => showMid s | none => "none"]
+      else if k == "c" then out := out ++ [if (c.get txid).isSome then "1" else "0"]
+      else if k == "p" then c := c.purge txid
+      else none
+    | _ => none
+  pure (if out.isEmpty then "-" else String.intercalate "," out)
+
 def handle : List String → String
+  | "hashcache" :: n :: rest =>
+    match n.toNat? with
+    | some n =>
+      match parseTxs n rest with
+      | some (txs, ops) => (hashCacheRun txs ops).getD "bad-op"
+      | none => "bad-op"
+    | none => "bad-op"
   | "sigcache" :: cap :: ops =>
     match cap.toNat? with
     | some cap => (sigCacheRun cap ops).getD "bad-op"
@@ -170,6 +202,18 @@ def handle : List String → String
       | some tx, some idx, some ht, some script => handleLegacy (op == "legacyapi") tx idx ht script
       | _, _, _, _ => "bad-op"
     else "bad-op"
+  | ["witnil", tx, idx, ht, sub, amt] =>
+    match tx? tx, idx.toNat?, u32? ht, hexToList? sub, i64? amt with
+    | some tx, some idx, some ht, some sub, some amt =>
+      showOut (Model.calcWitnessSignatureHashRawNil sha sub ht tx idx amt)
+    | _, _, _, _, _ => "bad-op"
+  | ["tapnil", tx, sp, idx, ht, annex, ext] =>
+    match tx? tx, spent? sp, idx.toNat?, u32? ht, annex? annex, ext? ext with
+    | some tx, some sp, some idx, some ht, some annex, some ext =>
+      if sp.length ≠ tx.ins.length then "bad-op" else
+      showOut (Model.calcTaprootSignatureHashRawNil sha ht tx idx (mkFetch tx sp)
+        (Model.mkOpts sha annex (ext.map (fun e => (e.leafHash, e.codeSepPos)))))
+    | _, _, _, _, _, _ => "bad-op"
   | [op, tx, sp, idx, ht, sub, amt] =>
     if op == "wit" || op == "witapi" then
       match tx? tx, spent? sp, idx.toNat?, u32? ht, hexToList? sub, i64? amt with
